@@ -79,12 +79,21 @@ func (H) Gen(p string, seed uint64, tier string) *hx.Case {
 		case 0:
 			q.Kind = "legacy"
 			q.HT = allHT[1+r.Intn(6)]
+			if r.Chance(0.35) {
+				q.HT = uint32(r.Intn(256)) // any byte: only bits 0-4 and bit 7 have a meaning, all of it is hashed
+			}
 			if r.Chance(0.1) {
 				q.HT |= uint32(r.Intn(4)) << 8 // legacy hash types are 4 bytes wide
 			}
 		case 1:
 			q.Kind = "bip143"
 			q.HT = allHT[1+r.Intn(6)]
+			if r.Chance(0.35) {
+				q.HT = uint32(r.Intn(256))
+			}
+			if r.Chance(0.1) {
+				q.HT |= uint32(r.Intn(4)) << 8
+			}
 		case 2:
 			q.Kind = "bip341"
 			q.HT = allHT[r.Intn(7)]
